@@ -539,34 +539,34 @@ Definition sig_fuel (sc : scope) (t : ity) : nat :=
 Definition tuple_sig (f : nat) (sc : scope) (ps : list (string * ity)) : option string :=
   isig (S f) sc (ITuple (map snd ps)).
 
+Fixpoint meta_methods (sc : scope) (l : list (N * (string * ity * list (string * ity)))) : option (list mmethod) :=
+  match l with
+  | [] => Some []
+  | (id, (n, ret, pl)) :: r =>
+      let f := sig_fuel sc (ITuple (ret :: map snd pl)) in
+      match isig f sc ret, tuple_sig f sc pl, iidl f sc ret, meta_methods sc r with
+      | Some rs, Some p, Some _, Some rest =>
+          Some ({| mm_uid := id; mm_name := n; mm_params := p; mm_ret := rs;
+                   mm_pnames := Some (map fst pl) |} :: rest)
+      | _, _, _, _ => None
+      end
+  end.
+Fixpoint meta_signals (sc : scope) (l : list (N * (string * list (string * ity)))) : option (list msignal) :=
+  match l with
+  | [] => Some []
+  | (id, (n, pl)) :: r =>
+      let f := sig_fuel sc (ITuple (map snd pl)) in
+      match tuple_sig f sc pl, meta_signals sc r with
+      | Some p, Some rest => Some ({| ms_uid := id; ms_name := n; ms_sig := p |} :: rest)
+      | _, _ => None
+      end
+  end.
+
 Definition meta_of_itf (sc : scope) (v : ival) : option (option mobject) :=
   (* None = stack overflow; Some None = not an interface *)
   match v with
   | VItf name ms ss ps =>
-      let fuel_of t := sig_fuel sc t in
-      let fix methods l :=
-          match l with
-          | [] => Some []
-          | (id, (n, ret, pl)) :: r =>
-              let f := fuel_of (ITuple (ret :: map snd pl)) in
-              match isig f sc ret, tuple_sig f sc pl, iidl f sc ret, methods r with
-              | Some rs, Some p, Some _, Some rest =>
-                  Some ({| mm_uid := id; mm_name := n; mm_params := p; mm_ret := rs;
-                           mm_pnames := Some (map fst pl) |} :: rest)
-              | _, _, _, _ => None
-              end
-          end in
-      let fix signals l :=
-          match l with
-          | [] => Some []
-          | (id, (n, pl)) :: r =>
-              let f := fuel_of (ITuple (map snd pl)) in
-              match tuple_sig f sc pl, signals r with
-              | Some p, Some rest => Some ({| ms_uid := id; ms_name := n; ms_sig := p |} :: rest)
-              | _, _ => None
-              end
-          end in
-      match methods ms, signals ss, signals ps with
+      match meta_methods sc ms, meta_signals sc ss, meta_signals sc ps with
       | Some a, Some b, Some c => Some (Some {| mo_name := name; mo_methods := a; mo_signals := b; mo_props := c |})
       | _, _, _ => None
       end
@@ -628,30 +628,34 @@ Definition resolve_collision (s : tset) (orig sg : string) : string := resolve_l
 
 (* Type.RegisterTo: structs are registered members first; a struct whose name is taken by a
    different type is renamed in place, so the result is the type with its new names *)
+Section RegLists.
+  Variable reg : ty -> tset -> ty * tset.
+  Fixpoint reg_list (l : list ty) (s : tset) : list ty * tset :=
+    match l with
+    | [] => ([], s)
+    | x :: r => let (x', s1) := reg x s in let (r', s2) := reg_list r s1 in (x' :: r', s2)
+    end.
+  Fixpoint reg_fields (l : list (string * ty)) (s : tset) : list (string * ty) * tset :=
+    match l with
+    | [] => ([], s)
+    | (a, x) :: r => let (x', s1) := reg x s in let (r', s2) := reg_fields r s1 in ((a, x') :: r', s2)
+    end.
+End RegLists.
+Definition struct_block (fs : list (string * ty)) : list (string * string) :=
+  map (fun f => (fst f, idl_name (snd f))) fs.
 Fixpoint register (t : ty) (s : tset) : ty * tset :=
   match t with
   | TS _ => (t, s)
   | TList e => let (e', s1) := register e s in (TList e', s1)
   | TMap k v => let (k', s1) := register k s in let (v', s2) := register v s1 in (TMap k' v', s2)
-  | TTuple ts =>
-      let fix go (l : list ty) (s : tset) : list ty * tset :=
-          match l with
-          | [] => ([], s)
-          | x :: r => let (x', s1) := register x s in let (r', s2) := go r s1 in (x' :: r', s2)
-          end in
-      let (ts', s1) := go ts s in (TTuple ts', s1)
+  | TTuple ts => let (ts', s1) := reg_list register ts s in (TTuple ts', s1)
   | TStruct n fs =>
-      let fix go (l : list (string * ty)) (s : tset) : list (string * ty) * tset :=
-          match l with
-          | [] => ([], s)
-          | (a, x) :: r => let (x', s1) := register x s in let (r', s2) := go r s1 in ((a, x') :: r', s2)
-          end in
-      let (fs', s1) := go fs s in
+      let (fs', s1) := reg_fields register fs s in
       let n' := resolve_collision s1 n (print (TStruct n fs')) in
       let t' := TStruct n' fs' in
       match lookup n' s1 with
       | Some _ => (t', s1)
-      | None => (t', List.app s1 [(n', (print t', Some (map (fun f => (fst f, idl_name (snd f))) fs')))])
+      | None => (t', List.app s1 [(n', (print t', Some (struct_block fs')))])
       end
   end.
 
@@ -843,3 +847,172 @@ Definition roundtrip_ok (pkg : string) (objs : list mobject) : bool :=
   | Some text => match parse_idl text with IOk objs' => all2 same_object objs objs' | _ => false end
   | None => false
   end.
+
+(* ================= the repaired ParsePackage (design/C18.fix.self_referential_struct_crash.diff) ==========
+   RefType.Signature marks a reference that is asked for its signature while it is already being
+   resolved (the invalid struct name "recursive type: N") instead of recursing, and ParsePackage
+   refuses a package one of whose declared structures has such a signature.  A reference is
+   re-entered exactly when the unguarded recursion would not end, i.e. when the bounded resolution
+   [isig] runs out of fuel. *)
+Definition struct_resolves (sc : scope) (d : ival) : bool :=
+  match d with
+  | VStruct _ ms =>
+      let t := ITuple (map snd ms) in
+      match isig (sig_fuel sc t) sc t with Some _ => true | None => false end
+  | _ => true
+  end.
+
+Definition parse_idl_g (guard : bool) (s : string) : idl_result :=
+  match fst (parse_package s) with
+  | Ok root rest =>
+      if is_empty (skip_ws rest) then
+        match root with
+        | NVal (VPkg _ ds) =>
+            let sc := scope_of ds [] in
+            if guard && negb (forallb (struct_resolves sc) ds) then IErr
+            else match metas_of sc ds with
+                 | Some ms => IOk ms
+                 | None => if guard then IErr else ICrash
+                 end
+        | _ => IErr
+        end
+      else IErr
+  | Fail => IErr
+  | NoFuel => IFuel
+  | Hang => IHang
+  end.
+
+(* ================= the repairs of design/C18.fix.*.diff as switches =================
+   Each switch is false on the pinned code; the harness observes it on the witness family of the
+   corresponding finding and the correspondence run uses the grammar with the observed switches.
+   With every switch false the definitions below are the ones above (parse_idl_cfg_pinned). *)
+Record icfg := { c_guard : bool;     (* ParsePackage refuses self-referential structures *)
+                 c_word : bool;      (* basicType(): the names must end at a word boundary *)
+                 c_void : bool;      (* "nothing" is a basic type and Tuple<> is the empty tuple *)
+                 c_uid0 : bool }.    (* a written uid 0 is kept; only absent uids are numbered *)
+Definition icfg_pinned : icfg := {| c_guard := false; c_word := false; c_void := false; c_uid0 := false |}.
+
+(* Token(`name\b`): the name, not followed by a letter, digit or underscore *)
+Definition atom_w (m : string) : iparser := fun s =>
+  match strip_prefix m (skip_ws s) with
+  | Some r => match r with
+              | String c _ => if is_alnum_ c then (Fail, 1%N) else (Ok (NTerm m) r, 1%N)
+              | EmptyString => (Ok (NTerm m) r, 1%N)
+              end
+  | None => (Fail, 1%N)
+  end.
+
+Definition scalar_of_idl_g (c : icfg) (v : string) : option scalar :=
+  if c_void c && String.eqb v "nothing" then Some SVoid else scalar_of_idl v.
+Definition inodify_basic_g (c : icfg) (ns : list inode) : inode :=
+  match ns with
+  | [NTerm v] => match scalar_of_idl_g c v with Some s => NVal (VType (IBasic s)) | None => NErr end
+  | _ => NErr
+  end.
+Definition idl_basic_names_g (c : icfg) : list string :=
+  if c_void c then (idl_basic_names ++ ["nothing"])%list else idl_basic_names.
+Definition ibasic_type_g (c : icfg) : iparser :=
+  por (Some (inodify_basic_g c)) (map (if c_word c then atom_w else atom) (idl_basic_names_g c)).
+Definition ituple_type_g (c : icfg) (d : iparser) : iparser :=
+  pand (Some inodify_tuple)
+       [atom "Tuple<";
+        (if c_void c then kleene_sep (Some inodify_list) d (atom ",") else many_sep (Some inodify_list) d (atom ","));
+        atom ">"].
+Definition itype_g (c : icfg) : nat -> string -> res inode * N :=
+  fix itype_g (f : nat) (s : string) {struct f} : res inode * N :=
+  match f with
+  | O => (NoFuel, 0%N)
+  | S f' =>
+      por (Some nodify_first)
+          [ibasic_type_g c; imap_type (itype_g f'); ituple_type_g c (itype_g f'); ivec_type (itype_g f'); iref_type] s
+  end.
+
+(* an absent uid: 2^32 cannot be read from a comment (scan_uid) *)
+Definition no_uid : N := (2 ^ 32)%N.
+Definition uid_of_g (c : icfg) (n : inode) : N :=
+  match n with NVal (VUid u) => u | _ => if c_uid0 c then no_uid else 0%N end.
+Definition is_absent (c : icfg) (id : N) : bool := if c_uid0 c then N.eqb id no_uid else N.eqb id 0.
+
+Definition inodify_method_g (c : icfg) (ns : list inode) : inode :=
+  match ns with
+  | [_; NTerm name; _; NVal (VParams ps); _; r; cm] =>
+      match as_type r with
+      | Some rt => NVal (VMethod name (uid_of_g c cm) rt ps)
+      | None => NErr
+      end
+  | _ => NErr
+  end.
+Definition inodify_signal_g (c : icfg) (ns : list inode) : inode :=
+  match ns with
+  | [_; NTerm name; _; NVal (VParams ps); _; cm] => NVal (VSignal name (uid_of_g c cm) ps)
+  | _ => NErr
+  end.
+Definition inodify_property_g (c : icfg) (ns : list inode) : inode :=
+  match ns with
+  | [_; NTerm name; _; NVal (VParams ps); _; cm] => NVal (VProp name (uid_of_g c cm) ps)
+  | _ => NErr
+  end.
+
+(* registerEvent without a written uid keeps the zero value of the field *)
+Definition action_list_g (c : icfg) :=
+  fix action_list_g (l : list inode) (custom : N)
+         (ms : list (N * (string * ity * list (string * ity))))
+         (ss ps : list (N * (string * list (string * ity)))) {struct l} : inode :=
+  match l with
+  | [] => NVal (VItf "" ms ss ps)
+  | NVal (VMethod name id ret pl) :: r =>
+      if is_absent c id && negb (String.eqb name "registerEvent")
+      then action_list_g r (custom + 1)%N (upsert custom (name, ret, pl) ms) ss ps
+      else action_list_g r custom (upsert (if c_uid0 c && is_absent c id then 0%N else id) (name, ret, pl) ms) ss ps
+  | NVal (VSignal name id pl) :: r =>
+      if is_absent c id then action_list_g r (custom + 1)%N ms (upsert custom (name, pl) ss) ps
+      else action_list_g r custom ms (upsert id (name, pl) ss) ps
+  | NVal (VProp name id pl) :: r =>
+      if is_absent c id then action_list_g r (custom + 1)%N ms ss (upsert custom (name, pl) ps)
+      else action_list_g r custom ms ss (upsert id (name, pl) ps)
+  | _ :: _ => NErr
+  end.
+
+Definition imethod_g (c : icfg) (ty : iparser) : iparser :=
+  pand (Some (inodify_method_g c)) [atom "fn"; iident; atom "("; iparameters ty; atom ")"; ireturns ty; icomments].
+Definition isignal_g (c : icfg) (ty : iparser) : iparser :=
+  pand (Some (inodify_signal_g c)) [atom "sig"; iident; atom "("; iparameters ty; atom ")"; icomments].
+Definition iproperty_g (c : icfg) (ty : iparser) : iparser :=
+  pand (Some (inodify_property_g c)) [atom "prop"; iident; atom "("; iparameters ty; atom ")"; icomments].
+Definition iaction_g (c : icfg) (ty : iparser) : iparser :=
+  por (Some nodify_first) [imethod_g c ty; isignal_g c ty; iproperty_g c ty].
+Definition iinterface_g (c : icfg) (ty : iparser) : iparser :=
+  pand (Some inodify_interface)
+       [atom "interface"; iident; icomments;
+        kleene (Some (fun ns => action_list_g c ns 100%N [] [] [])) (iaction_g c ty); atom "end"; icomments].
+Definition ideclaration_g (c : icfg) (ty : iparser) : iparser :=
+  por (Some nodify_first) [istructure ty; ienum; iinterface_g c ty].
+Definition ipackage_g (c : icfg) (ty : iparser) : iparser :=
+  pand (Some inodify_package) [ipackage_name; kleene (Some inodify_decl_list) (ideclaration_g c ty)].
+Definition parse_package_g (c : icfg) (s : string) : res inode * N :=
+  ipackage_g c (itype_g c (S (String.length s))) s.
+
+Definition parse_idl_cfg (c : icfg) (s : string) : idl_result :=
+  match fst (parse_package_g c s) with
+  | Ok root rest =>
+      if is_empty (skip_ws rest) then
+        match root with
+        | NVal (VPkg _ ds) =>
+            let sc := scope_of ds [] in
+            if c_guard c && negb (forallb (struct_resolves sc) ds) then IErr
+            else match metas_of sc ds with
+                 | Some ms => IOk ms
+                 | None => if c_guard c then IErr else ICrash
+                 end
+        | _ => IErr
+        end
+      else IErr
+  | Fail => IErr
+  | NoFuel => IFuel
+  | Hang => IHang
+  end.
+
+Lemma parse_idl_cfg_pinned s : parse_idl_cfg icfg_pinned s = parse_idl s.
+Proof. reflexivity. Qed.
+Lemma parse_idl_cfg_guard s : parse_idl_cfg {| c_guard := true; c_word := false; c_void := false; c_uid0 := false |} s = parse_idl_g true s.
+Proof. reflexivity. Qed.
